@@ -154,6 +154,7 @@ pub fn main(table: &[Entry]) {
     let mut inconclusive: Vec<Value> = vec![];
     let (mut cases, mut items_seen, mut err_items, mut runs_with_err, mut runs_with_skip, mut multibyte_runs, mut dropped, mut traced) = (0usize, 0usize, 0usize, 0usize, 0usize, 0usize, 0usize, 0usize);
     let (mut gd, mut mem, mut rnd, mut swp) = (0usize, 0usize, 0usize, 0usize);
+    let mut long_inputs = 0usize;
     let (mut cb_invocations, mut runs_with_cb, mut cb_bumps) = (0usize, 0usize, 0usize);
     let mut distinct: std::collections::HashSet<u64> = Default::default();
     let mut defs_run = 0usize;
@@ -180,7 +181,7 @@ pub fn main(table: &[Entry]) {
         let name_hash = fnv1a(e.name.as_bytes());
         let mut rng = Rng::derive(seed, name_hash);
         let set = if let Some(inp) = &replay_input {
-            inputs::InputSet { inputs: vec![inp.clone()], dropped: 0, graph_directed: 0, members: 0, random: 0, sweeps: 0 }
+            inputs::InputSet { inputs: vec![inp.clone()], dropped: 0, graph_directed: 0, members: 0, random: 0, sweeps: 0, long: 0 }
         } else {
             inputs::build(&ctx, &mut rng, thorough, cap)
         };
@@ -189,6 +190,7 @@ pub fn main(table: &[Entry]) {
         mem += set.members;
         rnd += set.random;
         swp += set.sweeps;
+        long_inputs += set.long;
 
         match mode.as_str() {
             "stream" => {
@@ -426,7 +428,7 @@ pub fn main(table: &[Entry]) {
         "config": config, "mode": mode, "seed": seed, "tier": if thorough { "thorough" } else { "quick" },
         "definitions": defs_run, "cases": cases, "distinct_cases": distinct.len(), "items": items_seen, "error_items": err_items,
         "runs_with_error": runs_with_err, "runs_with_skip": runs_with_skip, "runs_with_multibyte": multibyte_runs,
-        "inputs": {"graph_directed": gd, "members_and_mutations": mem, "alphabet_random": rnd, "length_sweeps": swp, "dropped_invalid_utf8": dropped},
+        "inputs": {"graph_directed": gd, "members_and_mutations": mem, "alphabet_random": rnd, "length_sweeps": swp, "long_100_to_1500_bytes": long_inputs, "dropped_invalid_utf8": dropped},
         "traced_runs": traced, "callback_invocations": cb_invocations, "runs_with_callbacks": runs_with_cb, "callback_bumps": cb_bumps,
         "read_trace": {"read_events": read_stats.events, "attempts": read_stats.attempts, "restarts": read_stats.restarts, "max_reads_per_examined_byte": read_stats.max_ratio},
         "partial": {"splits": pstats.splits, "stopped_mid_stream": pstats.stopped_mid_stream, "determinedness_inconclusive": pstats.inconclusive, "chunk_schedules": pstats.chunk_schedules},
